@@ -382,7 +382,18 @@ def compaction_case(args) -> List[Tuple[str, str]]:
             items = list(rec.items())
             r.shuffle(items)
             recs.append(dict(items))
-        L.rewrite_jsonl(stream, copy_of(recs))
+        # the declared interface is Iterable[dict]: a list, a tuple and one-shot iterables (generator, iterator, map)
+        given = copy_of(recs)
+        shape = ["list", "generator", "tuple", "iterator", "map"][k % 5]
+        if shape == "generator":
+            given = (x for x in given)
+        elif shape == "tuple":
+            given = tuple(given)
+        elif shape == "iterator":
+            given = iter(given)
+        elif shape == "map":
+            given = map(dict, given)
+        L.rewrite_jsonl(stream, given)
         p = os.path.join(work, stream)
         with open(p, "rb") as f:
             data = f.read()
@@ -399,7 +410,7 @@ def compaction_case(args) -> List[Tuple[str, str]]:
         want = [normalize_for_identity(stream, copy_of([x])[0]) for x in recs]
         if json.dumps(got, sort_keys=True) != json.dumps(want, sort_keys=True):
             bad = next((i for i, (a, b) in enumerate(zip(got, want)) if json.dumps(a, sort_keys=True) != json.dumps(b, sort_keys=True)), min(len(got), len(want)))
-            fails.append(("CompactionPreservesRecords", f"{stream} CI={ci}: {len(got)} records read back for {len(want)} written; first difference at #{bad}: "
+            fails.append(("CompactionPreservesRecords", f"{stream} CI={ci} (records given as a {shape}): {len(got)} records read back for {len(want)} written; first difference at #{bad}: "
                                                         f"{got[bad] if bad < len(got) else None!r} vs {want[bad] if bad < len(want) else None!r}"))
         if len(data.split(b"\n")) - 1 != len(recs):
             fails.append(("OneCompleteLinePerRecord", f"{len(data.split(chr(10).encode())) - 1} lines for {len(recs)} records"))
